@@ -233,6 +233,18 @@ def f_r4_order(schema: Schema, rep: Report):
         rep.check("F-R4", f"update_args:order-guard-dominates:{kind}", ordered, "a child value is stored on a path on which neither `previous position < this position` nor `both are list members` has been established: out-of-order children are accepted (or the order test is exempted by something else)" if not ordered else "", f"{rel}:{sn.stmt.lineno}")
         if kind == "kwargs":
             rep.check("F-R4", "update_args:duplicate-single-child-rejected", dup_ok_here, "a second occurrence of a non-repeatable child is accepted: the order test is not strict (<) and no raise on `key in kwargs` precedes the store" if not dup_ok_here else ("strict order test" if strict else "separate duplicate raise"), f"{rel}:{sn.stmt.lineno}")
+    # the accumulator is handed back unchanged only for a tag the class does not declare (failed lookup); a DECLARED
+    # child that is skipped this way leaves no trace - its position is not recorded and it is not counted, so a
+    # duplicate, an out-of-order sibling or a second member of a mutex group after it is accepted
+    skipped = None
+    for q in ppl:
+        if q.outcome != "return" or not (isinstance(q.value, ast.Name) and q.value.id == accum):
+            continue
+        facts = PT.simple_conds(q.conds)
+        unknown = any((a.startswith("raises(") and ".index(" in a and w is True) for a, w in facts.items()) or any((" in " in a and ("spec" in a) and w is False) for a, w in facts.items())
+        if not unknown:
+            skipped = facts
+    rep.check("F-R4", "update_args:declared-children-always-recorded", skipped is None, f"a path returns the accumulator unchanged although the tag was found in the spec (taken when {dict(list(skipped.items())[-3:]) if skipped else ''}): the child is neither stored nor counted, so a second occurrence, an earlier sibling or another member of an exclusive group after it is accepted" if skipped is not None else "", f"{rel}:{inner.lineno}")
     # state threading: returned tuple carries (args, kwargs, index, is_listmember); initial prev < 0
     rets = [n for n in cfg.nodes if n.kind == "return"]
     for rn in rets:
